@@ -1,6 +1,7 @@
 //! hv-sim: drivers that need the `elvis` crate (address generator, DHCP, routers, NDL).
 mod ipgen;
 mod lifeh;
+mod routerh;
 pub use hv_common::{simh, util};
 use util::*;
 
@@ -14,6 +15,7 @@ fn main() {
     match argv[0].as_str() {
         "ipgen-drive" => ipgen::drive(&args),
         "life-drive" => lifeh::drive(&args),
+        "router-drive" => routerh::drive(&args),
         other => {
             eprintln!("unknown command {other}");
             std::process::exit(2);
